@@ -84,6 +84,7 @@ def run(S):
     stats_and_build(S, D, N)
     send_limits(S, D, 1 if S.tier == 'quick' else 2)
     closing(S, D)
+    closing_fee_range(S, D)
 
 
 def leafs(S, D):
@@ -770,3 +771,86 @@ def closing(S, D):
         [bA], bounds='all channel values <= 21e14 sat')
     S.no_panic('C01.f.nopanic', E, pre, 'no overflow / failed assert when the funder can afford the fee')
     S.no_panic('C01.f.nopanic_native', E, pre + native, 'same, at the channel value the native probe uses', [bA, bB])
+
+
+def closing_fee_range(S, D):
+    import re
+    """C01.g: FundedChannel::closing_signed, the fee-range negotiation (region from the computation of our own fee limits
+    to the fee that is proposed / the error returned): a close both sides can agree on is never refused. With the peer's
+    range [min, max] (its proposal inside it) and ours [our_min, our_max]: a "cannot come to consensus" warning is returned
+    exactly when the ranges are disjoint; otherwise the fee we answer with lies in BOTH ranges (the fundee picks the highest
+    common fee, the funder accepts the peer's proposal iff it is inside our range)."""
+    ids = ['C01.g.consensus_iff_ranges_intersect', 'C01.g.witness']
+    if all(S._skip(o) for o in ids):
+        return
+    f = S.fn('closing_signed', first_param='FundedChannel')
+    E = S.engine(unwind=1)
+    mem = {}
+    calls = lambda rx: [b for b, (bd, t) in f.blocks.items() if t[0] == 'call' and re.search(rx, t[2])]
+    lim = calls(r'FundedChannel::<.*>::calculate_closing_fee_limits::<')
+    if len(lim) != 1:
+        raise X.Unsupported('closing_signed: %d computations of our fee limits' % len(lim))
+    our_min, our_max = E.sym('our_min_fee', 'u64'), E.sym('our_max_fee', 'u64')
+    pmin, pmax, pfee = E.sym('peer.min_fee', 'u64'), E.sym('peer.max_fee', 'u64'), E.sym('peer.fee_satoshis', 'u64')
+    E.assume(our_min.t <= our_max.t)
+    outbound = z3.Bool('we_are_funder')
+    CS = D.struct_fields('ClosingSigned')
+    FR = D.struct_fields('ClosingSignedFeeRange')
+    msg_c = E.new_cell()
+    mem[msg_c] = X.Adt('ClosingSigned', {CS.index('fee_satoshis'): pfee,
+                                         CS.index('fee_range'): X.En('Option', 1, {1: [X.Adt('ClosingSignedFeeRange', {FR.index('min_fee_satoshis'): pmin, FR.index('max_fee_satoshis'): pmax}, base='range')]})}, base='msg')
+    proposed, closes = [], []
+    CE = lambda n: D.variant_index('ChannelError', n)
+
+    def h_get_msg(E_, m, func, argv, guard, mem_, dty, caller):
+        proposed.append((X.zbool(guard), argv[3]))
+        return X.En('Option', 0, {})
+    for rx, h in [
+        (r'FundedChannel::<.*>::calculate_closing_fee_limits::<', lambda *a: X.Tup([our_min, our_max])),
+        (r'FundingScope::is_outbound$', lambda *a: X.B(outbound)),
+        (r'FundingScope::get_value_satoshis$', lambda *a: E.sym('value!%d' % next(E.nfresh), 'u64')),
+        (r'FundedChannel::<.*>::build_closing_transaction$', lambda E_, m, func, argv, *a: X.En('Result', 0, {0: [X.Tup([X.Opaque('closing tx'), argv[1]])]})),
+        (r'FundedChannel::<.*>::get_closing_signed_msg::<', h_get_msg),
+        (r'ChannelError::close$', lambda *a: X.En('ChannelError', CE('Close'), {CE('Close'): [X.Opaque('reason')]})),
+        (r'^format$|^must_use::<', lambda *a: X.Opaque('string')),
+        (r'Arguments::<.*>::from_str$|Arguments::<.*>::new', lambda *a: X.Opaque('fmt args')),
+        (r'Argument::<.*>::new_', lambda *a: X.Opaque('fmt arg')),
+        (r'^std::mem::drop::<|drop_in_place', lambda *a: X.UNIT),
+        (r'u64>::div_ceil$', lambda *a: E.sym('ceil!%d' % next(E.nfresh), 'u64')),
+    ]:
+        E.models.insert(0, (re.compile(rx), h))
+    stops = [f.blocks[b][1][4] for b in calls(r'FundedChannel::<.*>::get_closing_signed_msg::<')]
+    # the message is the function's second parameter; its local index is its position
+    args = [E.sym('self', f.params[0][1], mem), X.Opaque('fee estimator'), X.Ref(msg_c), X.Opaque('logger')][:len(f.params)]
+    msg_local = [i + 1 for i, (n_, t_) in enumerate(f.params) if 'ClosingSigned' in t_]
+    if len(msg_local) != 1:
+        raise X.Unsupported('closing_signed: message parameter not found')
+    init = {msg_local[0]: X.Ref(msg_c)}
+    # copies of msg.fee_satoshis made before the region starts
+    pat = re.compile(r"\('assign', \('local', (\d+)\), \('use', \('copy', \('field', \('deref', \('local', %d\)\), %d, 'u64'\)\)\)\)" % (msg_local[0], CS.index('fee_satoshis')))
+    for b_, (bd, t) in f.blocks.items():
+        for st in bd:
+            m_ = pat.match(str(st))
+            if m_:
+                init[int(m_.group(1))] = pfee
+    runr = X.FnRun(E, f, args, True, mem)
+    E.depth += 1
+    rv, ret, m2 = runr.run(start_bb=lim[0], init=init, stop_bbs=tuple(stops))
+    E.depth -= 1
+    returned = X.zbool(ret) if rv is not None else z3.BoolVal(False)
+    is_err = z3.And(returned, X.zint(rv.d) == 1) if rv is not None else z3.BoolVal(False)
+    err = rv.vs[1][0] if rv is not None and 1 in rv.vs else None
+    warn = z3.And(is_err, X.zint(err.d) == CE('Warn')) if err is not None else z3.BoolVal(False)
+    close = z3.And(is_err, X.zint(err.d) == CE('Close')) if err is not None else z3.BoolVal(False)
+    disjoint = z3.Or(pmax.t < our_min.t, pmin.t > our_max.t)
+    any_prop = z3.Or(*[g for g, v in proposed]) if proposed else z3.BoolVal(False)
+    in_both = [z3.Implies(g, z3.And(X.zint(v.t) >= pmin.t, X.zint(v.t) <= pmax.t, X.zint(v.t) >= our_min.t, X.zint(v.t) <= our_max.t)) for g, v in proposed]
+    pre = [pmin.t <= pfee.t, pfee.t <= pmax.t]         # a proposal outside the peer's own range is a protocol error (closed), not negotiated
+    b = Binding('closing_fee_range_battery', [z3.IntVal(1)], [None], parse=lambda t: [0 if t[0] == '0' else 1], line_fn=lambda v: '1', which='oracle_tu', via_solver=True, domain=[(1, 1)], panic=False)
+    claim = z3.And(warn == disjoint, z3.Implies(z3.Not(disjoint), z3.And(any_prop == z3.Not(close), close == z3.And(outbound, z3.Or(pfee.t < our_min.t, pfee.t > our_max.t)))), *in_both)
+    b.outs = [z3.If(claim, 0, 1)]
+    S.prove(ids[0], E, pre, claim,
+            'in the closing_signed fee-range negotiation the "unable to come to consensus" warning is returned exactly when the peer\'s fee range and ours have no fee in common - ranges that touch in a single value still close - and otherwise the fee we answer with lies inside both ranges (a funder only refuses a proposal outside its own range)',
+            [b], given_no_panic=True, bounds='region of FundedChannel::closing_signed from calculate_closing_fee_limits to the proposed fee / the error; all u64 fees, both roles; transaction building and signing stubbed')
+    S.witness(ids[1], E, pre + [pmax.t == our_min.t, z3.Not(outbound)], any_prop)
+    S.validate('C01.g.validate', E, Binding('closing_fee_range_battery', [z3.IntVal(1)], [z3.IntVal(0)], parse=lambda t: [0 if t[0] == '0' else 1], line_fn=lambda v: '1', which='oracle_tu', via_solver=True, domain=[(1, 1)], panic=False), n=1, extra_vectors=[(1,)])
